@@ -66,6 +66,8 @@ def expected_result(cfg, b):
     """what the undecorated function returns for binding b"""
     if cfg.get('fn') == 'var':
         return 'g(%r,%r,%r)' % b
+    if cfg.get('fn') == 'pkw':
+        return 'g(%r,k=%r)' % b
     x, y = b
     mode = cfg.get('result', 'str')
     if mode == 'tuple':
@@ -79,7 +81,18 @@ def make_function(cfg, log, ctl):
     """fresh recorder function; log and ctl are shared lists/dicts.
     cfg['fn']: 'xy' (default) g(x, y=0) | 'var' g(x, *rest, **opts);
     cfg['result']: 'str' | 'tuple' | 'falsy' (None / 0 / '' for x = 1 / 2 / 3)"""
-    if cfg.get('fn') == 'var':
+    if cfg.get('fn') == 'pkw':
+        # a functools.partial that re-binds a keyword-only parameter which has its own default
+        def g0(x, *, k=3):
+            log.append((x, k))
+            if ctl.get('raise') is not None:
+                exc = ctl['raise']
+                ctl['raised'] = exc
+                raise exc
+            return 'g(%r,k=%r)' % (x, k)
+        import functools
+        g = functools.partial(g0, k=7)
+    elif cfg.get('fn') == 'var':
         def g(x, *rest, **opts):
             b = (x, rest, tuple(sorted(opts.items())))
             log.append(b)
@@ -107,6 +120,9 @@ def make_function(cfg, log, ctl):
 def call_table(cfg):
     n = cfg.get('nargs', 3)
     spell = cfg.get('spellings', 2)
+    if cfg.get('fn') == 'pkw':
+        calls = [((1,), {}), ((1,), {'k': 3}), ((2,), {}), ((2,), {'k': 5})][:max(3, n)]
+        return calls + [((1,), {'k': 7})][:min(spell, 1)]
     if cfg.get('fn') == 'var':
         # one extra positional of a "fast" type, calls that differ only in the named argument, a keyword extra
         calls = [((1, 7), {}), ((2, 7), {}), ((1,), {}), ((1, 8), {'o': 1}), ((2,), {'o': 1})][:max(3, n)]
@@ -128,6 +144,8 @@ def call_table(cfg):
 
 def binding(call, cfg=None):
     args, kw = call
+    if cfg is not None and cfg.get('fn') == 'pkw':
+        return (args[0], kw.get('k', 7))
     if cfg is not None and cfg.get('fn') == 'var':
         kw = dict(kw)
         if args:
@@ -221,6 +239,9 @@ class Chooser(object):
         return seq[idx]
 
 
+_KMAP_CACHE = {}
+
+
 class Sys(object):
     """one live system: function + decorator + wrapper + cache + archive"""
 
@@ -244,7 +265,12 @@ class Sys(object):
         self.fn = make_function(cfg, self.log, self.ctl)
         self.cacheobj = self._make_cache(first=True)
         self.wrapper = self._decorate(self.fn, self.cacheobj)
-        self.kmap = self._keys()
+        # keys of the call table: computed once per configuration (a fresh system is built for every transition);
+        # C18 separately checks at every state that key() still returns them
+        ck = repr(sorted(cfg.items(), key=lambda kv: kv[0]))
+        if ck not in _KMAP_CACHE:
+            _KMAP_CACHE[ck] = self._keys()
+        self.kmap = _KMAP_CACHE[ck]
         init = cfg.get('init', 'empty')
         if init == 'seeded_archive':
             arch = self.wrapper.__cache__().archive
@@ -426,8 +452,9 @@ class Transition(object):
                  'logdelta', 'choices', 'raised', 'incoherent', 'extra', 'hist')
 
 
-def apply_event(S, ev, script=()):
-    """apply one event to the live system; returns a Transition (without monitors)"""
+def apply_event(S, ev, script=(), light=False, pre=None):
+    """apply one event to the live system; returns a Transition (without monitors).
+    light=True (used when a history prefix is re-played only to reach a state): no snapshots are taken"""
     tr = Transition()
     tr.ev = ev
     tr.extra = {}
@@ -438,7 +465,7 @@ def apply_event(S, ev, script=()):
     tr.binding = S.bindings[s] if s is not None else None
     tr.key = S.kmap[s] if s is not None else None
     w = S.wrapper
-    tr.pre = snapshot(w, S.log)
+    tr.pre = None if light else (pre if pre is not None else snapshot(w, S.log))
     n0 = len(S.log)
     S.chooser.reset(script)
     saved = _random.choice
@@ -506,6 +533,8 @@ def apply_event(S, ev, script=()):
         _random.choice = saved
         S.ctl.pop('raise', None)
     tr.choices = list(S.chooser.trace)
+    if light:
+        return tr
     tr.logdelta = S.log[n0:]
     tr.post = snapshot(S.wrapper, S.log)
     if tr.exc is not None:
@@ -569,9 +598,9 @@ def replay(cfg, hist):
     for ev, script in hist:
         if ev[0] == 'callx':
             for _ in range(ev[2]):
-                apply_event(S, ('call', ev[1]), script)
+                apply_event(S, ('call', ev[1]), script, light=True)
         else:
-            apply_event(S, ev, script)
+            apply_event(S, ev, script, light=True)
     return S
 
 
@@ -596,7 +625,7 @@ class Result(object):
 
 def cfg_name(cfg):
     keys = ('module', 'alg', 'maxsize', 'maxsize_pos', 'purge', 'keymap', 'backend', 'init',
-            'ignore', 'tol', 'deep', 'result', 'fn', 'args', 'nargs')
+            'ignore', 'tol', 'deep', 'result', 'fn', 'args', 'nargs', 'narrow')
     return ' '.join('%s=%s' % (k, cfg[k]) for k in keys if k in cfg and cfg[k] not in (None, False))
 
 
@@ -622,7 +651,8 @@ def step_with_monitors(S, ev, script, monitors, quiet=False):
     trs = []
     if ev[0] == 'callx':
         for _ in range(ev[2]):
-            trs.append(apply_event(S, ('call', ev[1]), script))
+            # nothing happens between the elementary calls of a macro event: the previous post-state is the pre-state
+            trs.append(apply_event(S, ('call', ev[1]), script, pre=trs[-1].post if trs else None))
     else:
         trs.append(apply_event(S, ev, script))
     for tr in trs:
